@@ -157,4 +157,6 @@ def run(F, rep, tier="quick", extra=None, only=None):
     consts.check_white_points(F, rep, S)
     consts.check_transfer_functions(F, rep, S)
     consts.check_oklab_matrices(F, rep, S)
+    from . import aliasrule
+    aliasrule.check(F, rep, "C02", 19)
     return {"level": "other"}
